@@ -26,7 +26,7 @@ ASSUMPTIONS = ['fine bin j of coarse channel c (file order) maps to OBSFREQ + (c
 
 def required(tier):
     b = {'orient:asc': 20, 'orient:desc': 20, 'start_chan:0': 10, 'start_chan:>0': 30, 'kind:tone': 50, 'kind:chirp': 30,
-         'kind:reducers': 20, 'stem-re-recorded': 40, 'reducer:aligned-header': 8, 'reducer:key-begins-with-END': 4, 'chirp:neg': 8, 'chirp:pos': 8, 'array': 10, 'reducer:from_raw': 10, 'reducer:directio-off': 3, 'reducer:directio-on': 3, 'tone:mm-wave-band-sub-Hz-bins': 10, 'chirp:second-scan-from-the-same-source': 8, 're-recorded-through-from_data:start_chan>0': 8, 'reducer:odd-fft-length': 8}
+         'kind:reducers': 20, 'stem-re-recorded': 40, 'reducer:aligned-header': 8, 'reducer:key-begins-with-END': 4, 'chirp:neg': 8, 'chirp:pos': 8, 'array': 10, 'reducer:from_raw': 10, 'reducer:directio-off': 3, 'reducer:directio-on': 3, 'tone:mm-wave-band-sub-Hz-bins': 10, 'chirp:second-scan-from-the-same-source': 8, 're-recorded-through-from_data:start_chan>0': 8, 'reducer:odd-fft-length': 8, 'tone-given-as:MHz': 10, 'tone-given-as:GHz': 10, 'tone-given-as:Hz': 10, 'tone-given-as:np64': 10}
     return {'buckets': b, 'counters': {'tones_located': 60, 'chirp_rows_located': 60}, 'checks': 300, 'nontrivial': 60}
 
 
@@ -140,8 +140,19 @@ def run_case(c, R):
     rvb, src = work_raw.build(stg, cfg)
     ants = [src] if cfg['nants'] == 1 else src.antennas
     target = ants[-1]
+    # the sky frequency / drift rate as callers have them: plain numbers (Hz, Hz/s), numpy scalars, or astropy quantities in
+    # the unit the number was read in
+    form = common.stratum(c['_idx'], 207, ['plain', 'plain', 'np64', 'Hz', 'MHz', 'GHz'])
+    R.bucket('tone-given-as:' + form)
+    f_arg, d_arg = f_tone, drift
+    if form == 'np64':
+        f_arg, d_arg = np.float64(f_tone), np.float64(drift)
+    elif form != 'plain':
+        from astropy import units as u
+        f_arg = (f_tone / {'Hz': 1.0, 'MHz': 1e6, 'GHz': 1e9}[form]) * getattr(u, form)
+        d_arg = drift * u.Hz / u.s if form == 'Hz' else (drift * 60.0) * u.Hz / u.min
     for s in target.streams:
-        s.add_constant_signal(f_start=f_tone, drift_rate=drift, level=c['level'] * (2.0 if cfg['digitize'] else 1.0))
+        s.add_constant_signal(f_start=f_arg, drift_rate=d_arg, level=c['level'] * (2.0 if cfg['digitize'] else 1.0))
     stem = os.path.join(tmp, f"c07_{c['_idx']}")
     if c['_idx'] % 2 == 0:
         # history: the same stem held an earlier recording of ANOTHER band, which the library has already read
